@@ -39,6 +39,9 @@ class ReconnH(explore.Harness):
         self.idles = 0
         self.env_marks = []
         self.model_excluded = set()
+        self.model_excluded_lazy = set()
+        self.lazy_clear_pending = False
+        self.prev_hosts = []
         self.n_closes = 0
         self.round_open = False
         self.viol = []
@@ -174,9 +177,12 @@ class ReconnH(explore.Harness):
             self._wire_fault(conn, parts[2])
             self.round_open = False
             if parts[2] == "wrong-id":
-                self.model_excluded.add(parts[1])
-                if self.model_excluded >= set(self.cur_hosts):
-                    self.model_excluded.clear()  # every advertised address excluded: the next round must try the full list
+                # two admissible models of when an address change clears the exclusions: at once (eager) or when the next round
+                # starts (lazy, what the code does); only what BOTH models call eligible is demanded
+                for m_ in (self.model_excluded, self.model_excluded_lazy):
+                    m_.add(parts[1])
+                    if m_ >= set(self.cur_hosts):
+                        m_.clear()  # every advertised address excluded: the next round must try the full list
         elif k == "timer":
             self.loop.fire_next_timer()
         elif k == "idle":
@@ -185,8 +191,10 @@ class ReconnH(explore.Harness):
         elif k in ("zc-same", "zc-changed"):
             if k == "zc-changed":
                 if self.alt_hosts:
+                    self.prev_hosts = list(self.cur_hosts)
                     self.cur_hosts = [self.alt_hosts.pop(0)] + self.cur_hosts[1:]
-                    self.model_excluded.clear()  # a changed address set makes every advertised address eligible again
+                    self.model_excluded.clear()  # a changed address set makes every advertised address eligible again (eager model)
+                    self.lazy_clear_pending = True
                     self.hosts_changed_at = len(self.net.attempts)
             self.trigger_times.append((now, k))
             self.pairing._async_description_update(mk_description(self.cur_hosts, s=len(self.trigger_times) + 1))
@@ -274,12 +282,19 @@ class ReconnH(explore.Harness):
                 continue
             a["elig_checked"] = True
             prev = self.net.attempts[idx - 1] if idx else None
+            if self.lazy_clear_pending and any(h not in self.prev_hosts for h in a["hosts"]):
+                # the first attempt that lists a newly advertised address: the code has adopted the new address set (and cleared its exclusions)
+                self.model_excluded_lazy.clear()
+                self.lazy_clear_pending = False
             first_of_round = prev is None or prev["outcome"] is None or (prev["outcome"] and prev["outcome"][0] == "ok") or (prev["end"] is not None and a["t"] > prev["end"] + 1e-9) \
                 or any(abs(t - a["t"]) < 1e-9 for t, _ in self.trigger_times + self.env_marks)
             if not first_of_round or not self.p.get("with_description", True):
                 continue
+            pass
             if set(a["hosts"]) <= set(self.cur_hosts):  # (an attempt already in flight when the addresses changed is not judged)
-                eligible = [h for h in self.cur_hosts if h not in self.model_excluded] or list(self.cur_hosts)
+                eligible = [h for h in self.cur_hosts if h not in self.model_excluded and h not in self.model_excluded_lazy]
+                if not eligible:
+                    continue  # the two models disagree about everything that is left: nothing is demanded beyond a non-empty list
                 missing = set(eligible) - set(a["hosts"])
                 if missing and not (prev is not None and prev["end"] is not None and abs(a["t"] - prev["end"]) < 1e-9 and prev["outcome"] and prev["outcome"][0] != "ok"):
                     self.viol.append(("c10:eligible-address-not-tried-at-start-of-round", {"attempt_hosts": a["hosts"], "eligible": eligible, "excluded_model": sorted(self.model_excluded), "t": a["t"]}))
